@@ -1,6 +1,6 @@
 //! C04 — Content-Length request body is forwarded verbatim and never exceeds the length.
 use crate::core::{Property, Rec, Tier, Workload};
-use crate::drive::{body_sender, BodySender};
+use crate::drive::BodySender;
 use crate::rng::Rng;
 
 pub struct P;
@@ -18,7 +18,9 @@ fn pick_n(rng: &mut Rng, idx: u64) -> u64 {
 fn case(rng: &mut Rng, idx: u64, rec: &mut Rec) {
     let n = pick_n(rng, idx);
     let use_call = rng.chance(1, 4);
-    let mut s = match body_sender(Some(n), false, use_call) {
+    let variant = rng.below(4) as u8;
+    rec.cov(&format!("sender-variant/{}", variant));
+    let mut s = match crate::drive::body_sender_ex(Some(n), false, use_call, variant) {
         Ok(s) => s,
         Err(e) => {
             rec.fail("C04/setup", e);
